@@ -410,6 +410,8 @@ func (p *ProjectRunner) RestartProcess(name string) error {
 			log.Err(err).Msgf("failed to stop process %s", name)
 			return err
 		}
+		// the new instance is launched only after the previous one has exited
+		proc.waitForCompletion()
 		time.Sleep(proc.getBackoff())
 	}
 
